@@ -3,6 +3,7 @@ import re
 
 from engine import kinds
 from engine.facts import Site, Slicer, norm, operand_local, control_deps, last_field
+from engine.slicing import FlowSlicer
 
 CRATES = {"shuttle_engine", "shuttle_std", "shuttle", "shuttle_schedulers"}
 EXPLANATION = (
@@ -59,15 +60,18 @@ def r1_decisions_recorded(ctx):
         cd = control_deps(adv)
         labs = set()
         fields = set()
+        fsl = FlowSlicer(adv, control=False)
         for sw in cd.get(pushes[0].bb, ()):
-            l, _ = sl.slice_operand(adv.term(sw)["discr"])
-            labs |= l
+            # an assertion (one arm never returns) is not a condition under which the decision goes unrecorded
+            if any(adv.path_exists(Site(x, 0), adv.is_return, start_inclusive=True) is None for x in adv.succ[sw]):
+                continue
+            labs |= fsl.operand_labels(adv.term(sw)["discr"], adv.term_site(sw))
             f = kinds.discr_subject_field(adv, sl, adv.term(sw)["discr"])
             if f:
                 fields.add(f)
         only_cur = fields <= {E + "ExecutionState.current_task"} and not any(l.startswith("call:") and "debug_assert" not in l and "mem::replace" not in l
                                                                              and "ScheduledTask::take" not in l for l in labs if "assert" not in l and "fmt" not in l)
-        ctx.ob("C01.R1", "push-unconditional", fields == {E + "ExecutionState.current_task"},
+        ctx.ob("C01.R1", "push-unconditional", fields == {E + "ExecutionState.current_task"} and only_cur,
                "the append in advance_to_next_task is conditional only on current_task being Some(_) (same-task decisions are recorded too): guards %s" % sorted(fields),
                loc=adv.loc(pushes[0]))
     # run_to_completion: resume is preceded by schedule + advance
